@@ -1,14 +1,21 @@
 #!/usr/bin/env python3
 # Evaluates every delivered seeded change under /tmp/wt/*/_out that has no result yet.
 import os, re, subprocess, glob, sys
+BASE = '/tmp/wt'
+OFFSET = 0
+for i, a in enumerate(sys.argv):
+    if a == '--base':
+        BASE = sys.argv[i + 1]
+    if a == '--offset':
+        OFFSET = int(sys.argv[i + 1])
 os.makedirs('/tmp/seed_eval', exist_ok=True)
-for out in sorted(glob.glob('/tmp/wt/C*/_out')):
-    pid = out.split('/')[3]
-    for n in (1, 2):
+for out in sorted(glob.glob(BASE + '/C*/_out')):
+    pid = out.split('/')[-2]
+    for n in (1, 2, 3):
         demo = f'{out}/demo{n}_test.go'
         if not os.path.exists(demo) or not os.path.exists(f'{out}/change{n}.diff'):
             continue
-        res = f'/tmp/seed_eval/{pid}-{n}.txt'
+        res = f'/tmp/seed_eval/{pid}-{n + OFFSET}.txt'
         if os.path.exists(res) and '--force' not in sys.argv:
             continue
         first = ' '.join(open(demo).read().split('\n')[:6])
@@ -19,7 +26,7 @@ for out in sorted(glob.glob('/tmp/wt/C*/_out')):
         m2 = re.search(r'Place(?: this file)? in:?\s*([^\s(,]+)', first)
         if m2:
             d = m2.group(1).strip().rstrip('/')
-            d = re.sub(r'^/tmp/wt/C\d+/?', '', d) or '.'
+            d = re.sub(r'^/tmp/wt2?/C\d+/?', '', d) or '.'
         if d is None or d.startswith('/'):
             d = '.'
         extra = '-race' if '-race' in first else ''
